@@ -289,6 +289,32 @@ pub fn limits() -> Vec<Limit> {
             });
         }
     }
+    // many captured variables, every one read (and written) through its own capture: a closure over
+    // n variables of the enclosing function, the same through an intermediate function, and writes
+    // through the captures read back in the declaring function
+    for n in [127usize, 128, 129, 130, 200, 250] {
+        let decls: String = (0..n).map(|i| format!("var c{} = {};", i, i)).collect();
+        let all: String = (0..n).map(|i| format!("c{}", i)).collect::<Vec<_>>().join(", ");
+        let plain: String = format!("[{}]", (0..n).map(|i| i.to_string()).collect::<Vec<_>>().join(", "));
+        let bumped: String = format!("[{}]", (0..n).map(|i| (i + 1000).to_string()).collect::<Vec<_>>().join(", "));
+        v.push(Limit {
+            name: format!("captures_each_read_{}", n),
+            source: format!("fn outer() {{ {} fn inner() {{ return [{}]; }} return inner; }}\nprint(outer()());", decls, all),
+            expect: p(&[&plain]),
+        });
+        v.push(Limit {
+            name: format!("captures_each_read_through_intermediate_{}", n),
+            source: format!("fn outer() {{ {} fn mid() {{ fn inner() {{ return [{}]; }} return inner; }} return mid(); }}\nprint(outer()());", decls, all),
+            expect: p(&[&plain]),
+        });
+        // (written in descending order, so that the capture numbers differ from the slot order)
+        let writes: String = (0..n).rev().map(|i| format!("c{} = c{} + 1000;", i, i)).collect();
+        v.push(Limit {
+            name: format!("captures_each_written_{}", n),
+            source: format!("fn outer() {{ {} fn inner() {{ {} }} inner(); return [{}]; }}\nprint(outer());", decls, writes, all),
+            expect: p(&[&bumped]),
+        });
+    }
     // constants per chunk: 65536 distinct number literals fit (indices 0..65535)
     for n in [65535usize, 65536, 65537] {
         let mut s = String::with_capacity(n * 7);
@@ -631,7 +657,7 @@ impl Property for C04 {
     }
 
     fn rule(&self) -> String {
-        "cases: (limits, exhaustive) one parameterised program per encoding limit at limit-1, limit, limit+1 (+2): forward jump distance for if/else/&&/||/while/try/break at 65534..65537 bytes with byte-exact filler, backward loop distance, call/method arguments, parameters (fn and lambda), vec/tuple/map elements and interpolation parts at 254..257, locals at 254..257, 250..257 plain variables followed by a catch variable, a loop variable, a local class, a local function or nested-block variables (each instance is rejected or runs correctly), captured variables at 255..258, constants per chunk at 65535..65537 (numbers) and with the crossing constant a string, a global's name, a lambda, a named function or a class (65524..65536 numbers before it; each instance is rejected or runs correctly), interpolation depth 7..9; operand sweep: functions whose code ends in an operand byte of every value 0..255 as local slot, argument count, element count and captured-variable index; (scripts) every script of the repository's corpus that compiles; (programs*) generated programs of the mixed/class/scope profiles, with and without recorded-defect shapes; (far_code) generated programs of the exception, scope and mixed profiles placed behind 64-190 KiB of no-op statements in the same chunk, so that every code offset of the program exceeds 16 bits: verified, and run next to the unpadded program, whose printed values and outcome it must reproduce. Oracle: the bytecode verifier (abstract interpretation over every function: instruction boundaries, operand indices, one operand-stack height and one static handler stack per reachable pc, no pop below the frame base, final Return, line table length), the verifier's heights cross-checked against the interpreter's (chunk, pc, height) trace of the same run, no panic while running, for the limit family the output or rejection known by construction, and for the generated programs without recorded-defect shapes the printed values and outcome of the reference interpreter (a name resolved to another variable than the source means is well-formed code). Non-trivial: a verified function with >=1 branch and height above its arity, or any limit instance; distinct by program text.".into()
+        "cases: (limits, exhaustive) one parameterised program per encoding limit at limit-1, limit, limit+1 (+2): forward jump distance for if/else/&&/||/while/try/break at 65534..65537 bytes with byte-exact filler, backward loop distance, call/method arguments, parameters (fn and lambda), vec/tuple/map elements and interpolation parts at 254..257, locals at 254..257, 250..257 plain variables followed by a catch variable, a loop variable, a local class, a local function or nested-block variables (each instance is rejected or runs correctly), captured variables at 255..258, closures over 127..250 variables each of which is read (directly and through an intermediate function) and written through its own capture, constants per chunk at 65535..65537 (numbers) and with the crossing constant a string, a global's name, a lambda, a named function or a class (65524..65536 numbers before it; each instance is rejected or runs correctly), interpolation depth 7..9; operand sweep: functions whose code ends in an operand byte of every value 0..255 as local slot, argument count, element count and captured-variable index; (scripts) every script of the repository's corpus that compiles; (programs*) generated programs of the mixed/class/scope profiles, with and without recorded-defect shapes; (far_code) generated programs of the exception, scope and mixed profiles placed behind 64-190 KiB of no-op statements in the same chunk, so that every code offset of the program exceeds 16 bits: verified, and run next to the unpadded program, whose printed values and outcome it must reproduce. Oracle: the bytecode verifier (abstract interpretation over every function: instruction boundaries, operand indices, one operand-stack height and one static handler stack per reachable pc, no pop below the frame base, final Return, line table length), the verifier's heights cross-checked against the interpreter's (chunk, pc, height) trace of the same run, no panic while running, for the limit family the output or rejection known by construction, and for the generated programs without recorded-defect shapes the printed values and outcome of the reference interpreter (a name resolved to another variable than the source means is well-formed code). Non-trivial: a verified function with >=1 branch and height above its arity, or any limit instance; distinct by program text.".into()
     }
 
     fn assumptions(&self) -> Vec<String> {
